@@ -100,7 +100,29 @@ pub fn take_log() -> Vec<String> {
 pub fn next_serial() -> u64 {
     SERIAL.fetch_add(1, Ordering::SeqCst)
 }
+static OBS: Mutex<Vec<String>> = Mutex::new(Vec::new());
+static ANN: Mutex<Vec<String>> = Mutex::new(Vec::new());
+/// Record an observed nondeterministic choice of the implementation (DESIGN §3.2); it is
+/// appended as ` @k=v` to the operation line being executed in the annotated op file that
+/// the model driver consumes.
+pub fn obs(k: &str, v: impl std::fmt::Display) {
+    OBS.lock().unwrap_or_else(|e| e.into_inner()).push(format!("@{}={}", k, v));
+}
+fn ann_push(line: &str) {
+    let o: Vec<String> = std::mem::take(&mut *OBS.lock().unwrap_or_else(|e| e.into_inner()));
+    let mut l = line.to_string();
+    for x in o {
+        l.push(' ');
+        l.push_str(&x);
+    }
+    ANN.lock().unwrap_or_else(|e| e.into_inner()).push(l);
+}
+pub fn take_annotated() -> Vec<String> {
+    std::mem::take(&mut *ANN.lock().unwrap_or_else(|e| e.into_inner()))
+}
 pub fn begin_case() {
+    OBS.lock().unwrap_or_else(|e| e.into_inner()).clear();
+    ANN.lock().unwrap_or_else(|e| e.into_inner()).clear();
     SERIAL.store(0, Ordering::SeqCst);
     CASE_START_NS.store(VIRT_NS.load(Ordering::SeqCst), Ordering::SeqCst);
     take_log();
@@ -517,6 +539,7 @@ pub async fn run_ops(mw: &mut dyn Mw, ops: &[String]) {
                 for c in callers.live() {
                     callers.drop_caller(c);
                     yields(y).await;
+                    ann_push(&format!("drop {}", c));
                 }
             }
             "adv" => {
@@ -530,6 +553,7 @@ pub async fn run_ops(mw: &mut dyn Mw, ops: &[String]) {
                     for c in callers.live() {
                         callers.poll(c);
                         yields(y).await;
+                        ann_push(&format!("poll {}", c));
                     }
                     passes += 1;
                     if (log_len() == before && passes >= 2) || passes >= 64 {
@@ -548,6 +572,9 @@ pub async fn run_ops(mw: &mut dyn Mw, ops: &[String]) {
             _ => {}
         }
         yields(y.max(1)).await;
+        if words[0] != "settle" && words[0] != "dropall" {
+            ann_push(line.trim());
+        }
     }
     // end of case: drop whatever is still alive, in ascending id (events of the tear-down are not compared)
     log_raw("end".into());
